@@ -38,12 +38,18 @@ type c15Membership struct {
 	answer string
 	err    bool
 	asked  []string
+	// forSender: memberships are kept per sender ID (in pseudo-ID rooms the per-room key, not the
+	// user ID); the scripted answer is the membership of THIS sender ID, anyone else has none
+	forSender string
 }
 
 func (m *c15Membership) CurrentMembership(ctx context.Context, roomID spec.RoomID, senderID spec.SenderID) (string, error) {
 	m.asked = append(m.asked, roomID.String()+"|"+string(senderID))
 	if m.err {
 		return "", fmt.Errorf("c15 scripted membership querier error")
+	}
+	if m.forSender != "" && string(senderID) != m.forSender {
+		return "", nil
 	}
 	return m.answer, nil
 }
@@ -156,7 +162,7 @@ func c15SendJoinCheck(ctx *vfCtx, c c15SendJoinCase) {
 	}
 
 	_, priv := vfKeyFor(c15KeyLabel(c15Local))
-	mq := &c15Membership{answer: c.Existing, err: c.ExistingErr}
+	mq := &c15Membership{answer: c.Existing, err: c.ExistingErr, forSender: sender}
 	var resp *HandleSendJoinResponse
 	var herr error
 	if vfCatch(ctx, "C15/send-join", func() {
@@ -440,7 +446,7 @@ func c15SJPCheck(ctx *vfCtx, c c15SJPCase) {
 	}
 
 	_, priv := vfKeyFor(c15KeyLabel(c15Local))
-	mq := &c15Membership{answer: c.Existing, err: c.ExistingErr}
+	mq := &c15Membership{answer: c.Existing, err: c.ExistingErr, forSender: sender}
 	stored := map[string]string{}
 	var resp *HandleSendJoinResponse
 	var herr error
